@@ -39,6 +39,9 @@ struct Case {
     mt_addr: u64,
     max_ack: u32,
     ops: Vec<Option<(usize, FaultKind)>>,
+    /// `updates[k]`: bytes the device changes on its own right before the k-th call (firmware
+    /// update: another manifest table behind the same table address)
+    updates: Vec<Vec<(u64, Vec<u8>)>>,
 }
 
 fn fault_to_json(f: &Option<(usize, FaultKind)>) -> Value {
@@ -73,6 +76,7 @@ impl Case {
             "regions": self.regions.iter().map(|r| json!({"base": r.base.to_string(), "data": hex(&r.data)})).collect::<Vec<_>>(),
             "mt_addr": self.mt_addr.to_string(), "max_ack": self.max_ack,
             "ops": self.ops.iter().map(fault_to_json).collect::<Vec<_>>(),
+            "updates": self.updates.iter().map(|u| u.iter().map(|(a, d)| json!({"addr": a.to_string(), "data": hex(d)})).collect::<Vec<_>>()).collect::<Vec<_>>(),
         })
     }
     fn from_json(v: &Value) -> Case {
@@ -82,7 +86,24 @@ impl Case {
             mt_addr: v["mt_addr"].as_str().unwrap().parse().unwrap(),
             max_ack: v["max_ack"].as_u64().unwrap() as u32,
             ops: v["ops"].as_array().unwrap().iter().map(fault_from_json).collect(),
+            updates: v["updates"].as_array().map(|us| us.iter().map(|u| u.as_array().unwrap().iter()
+                .map(|p| (p["addr"].as_str().unwrap().parse().unwrap(), unhex(p["data"].as_str().unwrap()))).collect()).collect()).unwrap_or_default(),
         }
+    }
+    /// The device as the k-th call sees it (updates 0..=k applied).
+    fn at_call(&self, k: usize) -> Case {
+        let mut c = self.clone();
+        for u in self.updates.iter().take(k + 1) {
+            for (a, d) in u {
+                let end = *a as u128 + d.len() as u128;
+                if let Some(r) = c.regions.iter_mut().find(|r| *a >= r.base && end <= r.base as u128 + r.data.len() as u128) {
+                    let o = (*a - r.base) as usize;
+                    r.data[o..o + d.len()].copy_from_slice(d);
+                }
+            }
+        }
+        c.updates = vec![];
+        c
     }
     fn peek(&self, addr: u64, len: u64) -> Option<&[u8]> {
         if len == 0 {
@@ -181,16 +202,19 @@ fn patch_first_member(z: &mut [u8], or_flags: u16, method: Option<u16>) {
 }
 
 /// Independent walk of the zip central directory (APPNOTE 4.3.12 / 4.3.16, no zip crate):
-/// (number of members, number of members that are FILES).  A member is a directory when its name
-/// ends with '/' or its external attributes carry the MS-DOS directory bit / a unix directory mode.
-fn central_directory_counts(z: &[u8]) -> Option<(usize, usize)> {
+/// (number of members, FILES at least, FILES at most).  A member whose name ends with '/' is a
+/// directory, one without that and without directory attributes is a file; a member whose name
+/// does not end with '/' but whose external attributes carry the MS-DOS directory bit / a unix
+/// directory mode (only seen in corrupted directories) is ambiguous and counts in the upper bound
+/// only.
+fn central_directory_counts(z: &[u8]) -> Option<(usize, usize, usize)> {
     let eocd = z.windows(4).rposition(|w| w == [0x50, 0x4b, 0x05, 0x06])?;
     if z.len() < eocd + 22 {
         return None;
     }
     let total = u16::from_le_bytes([z[eocd + 10], z[eocd + 11]]) as usize;
     let mut at = u32::from_le_bytes(z[eocd + 16..eocd + 20].try_into().ok()?) as usize;
-    let (mut members, mut files) = (0, 0);
+    let (mut members, mut files_min, mut files_max) = (0, 0, 0);
     for _ in 0..total {
         if z.len() < at + 46 || z[at..at + 4] != [0x50, 0x4b, 0x01, 0x02] {
             return None;
@@ -200,14 +224,18 @@ fn central_directory_counts(z: &[u8]) -> Option<(usize, usize)> {
         let comment_len = u16::from_le_bytes([z[at + 32], z[at + 33]]) as usize;
         let ext = u32::from_le_bytes(z[at + 38..at + 42].try_into().ok()?);
         let name = z.get(at + 46..at + 46 + name_len)?;
-        let is_dir = name.last() == Some(&b'/') || ext & 0x10 != 0 || (ext >> 16) & 0o170000 == 0o040000;
+        let dir_by_name = name.last() == Some(&b'/');
+        let dir_by_attr = ext & 0x10 != 0 || (ext >> 16) & 0o170000 == 0o040000;
         members += 1;
-        if !is_dir {
-            files += 1;
+        if !dir_by_name {
+            files_max += 1;
+            if !dir_by_attr {
+                files_min += 1;
+            }
         }
         at += 46 + name_len + extra_len + comment_len;
     }
-    Some((members, files))
+    Some((members, files_min, files_max))
 }
 
 /// A one-member archive whose central directory advertises (via a zip64 extra field) an
@@ -313,9 +341,15 @@ fn expected(case: &Case, tolerant: bool) -> Result<(Vec<u8>, bool), &'static str
         None => Err("corrupt-archive"),
         Some(m) => {
             // "exactly one file": counted on the central directory itself, directories are not files
-            let (members, files) = central_directory_counts(file).unwrap_or((m.len(), m.iter().filter(|x| x.is_some()).count().max((m.len() == 1) as usize)));
-            if files != 1 {
+            let fallback = m.iter().filter(|x| x.is_some()).count().max((m.len() == 1) as usize);
+            let (members, files_min, files_max) = central_directory_counts(file).unwrap_or((m.len(), fallback, fallback));
+            if files_max < 1 || files_min > 1 {
                 return Err("archive-not-one-file");
+            }
+            if files_min != files_max {
+                // a member that is a file by its name and a directory by its attributes (corrupted
+                // directory): either reading is defensible
+                return Err("archive-ambiguous-directory-member");
             }
             if members != 1 {
                 // one file next to directory entries: the property text ("exactly one file") admits
@@ -362,7 +396,13 @@ fn request(case: &Case) -> String {
             lossy_pairs.push((b.to_vec(), l));
         }
     };
-    if let Ok(entries) = decode_manifest(case) {
+    let n_images = case.ops.len().max(1);
+    let entries_all: Vec<Entry> = (0..n_images)
+        .filter_map(|k| decode_manifest(&case.at_call(k)).ok())
+        .flatten()
+        .collect();
+    {
+        let entries = entries_all;
         for e in entries {
             let Some((address, size, _)) = e.location else { continue };
             if size > 1 << 26 || files.iter().any(|f| f.0 == address && f.1 == size) {
@@ -396,7 +436,10 @@ fn request(case: &Case) -> String {
     for (a, b) in &lossy_pairs {
         s.push_str(&format!(" {} {}", hex(a), hex(b)));
     }
-    for f in &case.ops {
+    for (k, f) in case.ops.iter().enumerate() {
+        for (a, d) in case.updates.get(k).map(|u| &u[..]).unwrap_or(&[]) {
+            s.push_str(&format!(" M:{a}:{}", hex(d)));
+        }
         match f {
             None => s.push_str(" g"),
             Some((k, kind)) => s.push_str(&format!(" g@{k}:{}", kind.spec())),
@@ -427,7 +470,10 @@ fn run_impl(case: &Case) -> Result<(String, Vec<OpObs>), String> {
     let mut h = open_handle(&usb)?;
     let mut toks = vec![];
     let mut obs = vec![];
-    for f in &case.ops {
+    for (k, f) in case.ops.iter().enumerate() {
+        for (a, d) in case.updates.get(k).map(|u| &u[..]).unwrap_or(&[]) {
+            toks.push(format!("M={}", if usb.poke(*a, d) { "ok" } else { "unmapped" }));
+        }
         usb.arm(f.clone());
         let r = catch(|| h.genapi());
         let res = match r {
@@ -458,7 +504,8 @@ fn run_impl(case: &Case) -> Result<(String, Vec<OpObs>), String> {
     if usb.malformed_cmds() > 0 {
         return Err(format!("{} malformed commands reached the device", usb.malformed_cmds()));
     }
-    if usb.regions().iter().zip(&case.regions).any(|(a, b)| a.data != b.data) {
+    let last = case.at_call(obs.len().saturating_sub(1));
+    if usb.regions().iter().zip(&last.regions).any(|(a, b)| a.data != b.data) {
         return Err("genapi modified the device image".into());
     }
     Ok((toks.join(" "), obs))
@@ -508,7 +555,22 @@ fn run_case(rep: &mut Report, case: &Case, src: &str) -> usize {
         Ok((answer, obs)) => {
             let nontrivial = obs.iter().any(|o| matches!(&o.res, Ok(Ok(b)) if !b.is_empty()));
             rep.case(&format!("{:016x}{}", fnv_bytes(FNV_INIT, req.as_bytes()), req.len()), nontrivial);
+            if !case.updates.is_empty() {
+                let docs: Vec<Option<u64>> = obs.iter().map(|o| match &o.res { Ok(Ok(b)) => Some(fnv_bytes(FNV_INIT, b)), _ => None }).collect();
+                rep.count(if docs.windows(2).any(|w| w[0] != w[1] && (w[0].is_some() || w[1].is_some())) {
+                    "history:result-changes-between-calls"
+                } else {
+                    "history:same-result-every-call"
+                });
+            }
             for (i, o) in obs.iter().enumerate() {
+                // what the property demands of THIS call: the device as it is now
+                let (exp, exp_tolerant) = if case.updates.is_empty() {
+                    (exp.clone(), exp_tolerant.clone())
+                } else {
+                    let img = case.at_call(i);
+                    (expected(&img, false), expected(&img, true))
+                };
                 rep.count(&match &o.res {
                     Ok(Ok(_)) => "op:ok".to_string(),
                     Ok(Err(e)) => format!("op:err:{e}"),
@@ -540,7 +602,7 @@ fn run_case(rep: &mut Report, case: &Case, src: &str) -> usize {
                         // a tolerant implementation (skipping unknown file types) is acceptable
                         rep.count("reserved-file-type:skipped-by-implementation");
                     }
-                    (Ok(Ok(text)), Err("archive-one-file-among-directories")) if single_file_text(case).as_ref() == Some(text) => {
+                    (Ok(Ok(text)), Err("archive-one-file-among-directories" | "archive-ambiguous-directory-member")) if single_file_text(&case.at_call(i)).as_ref() == Some(text) => {
                         rep.count("archive-one-file-among-directories:accepted-by-implementation");
                     }
                     (Ok(Ok(text)), Err(why)) => {
@@ -833,7 +895,84 @@ fn gen_case(rng: &mut Rng, thorough: bool) -> Case {
         0 => vec![None, None],
         _ => vec![None],
     };
-    Case { regions: all, mt_addr, max_ack, ops }
+    Case { regions: all, mt_addr, max_ack, ops, updates: vec![] }
+}
+
+/// A history on one handle: the device replaces / edits its manifest table (same table address)
+/// between two calls of genapi() - a newer device XML entry becomes visible, versions are bumped
+/// so that another slot is the newest, entries swap slots, an entry changes its file type, the
+/// count shrinks.  File regions stay as they are.  Every call must return the newest document of
+/// the table as it is at that call.
+fn gen_update_case(rng: &mut Rng, thorough: bool) -> Option<Case> {
+    for _ in 0..40 {
+        let mut c = gen_case(rng, thorough);
+        if c.mt_addr > 1 << 40 {
+            continue;
+        }
+        let Some(pos) = c.regions.iter().position(|r| r.base == c.mt_addr) else { continue };
+        let table = c.regions[pos].data.clone();
+        if table.len() < 8 + 2 * 64 {
+            continue;
+        }
+        let slots = ((table.len() - 8) / 64) as u64;
+        let count = u64::from_le_bytes(table[0..8].try_into().unwrap());
+        if count > slots || c.regions.iter().map(|r| r.data.len()).sum::<usize>() > 40_000 {
+            continue;
+        }
+        let calls = 2 + rng.below(2) as usize;
+        let mut cur = table.clone();
+        let mut updates = vec![vec![]];
+        for _ in 1..calls {
+            let mut u = vec![];
+            for _ in 0..1 + rng.below(2) {
+                let i = rng.below(slots) as usize;
+                let off = 8 + 64 * i;
+                match rng.below(6) {
+                    0 => {
+                        // this slot becomes the newest device XML
+                        let v: u32 = 0x7f00_0000 | rng.below(0x10000) as u32;
+                        u.push((c.mt_addr + off as u64, v.to_le_bytes().to_vec()));
+                        let info = u32::from_le_bytes(cur[off + 4..off + 8].try_into().unwrap()) & !0b111;
+                        u.push((c.mt_addr + off as u64 + 4, info.to_le_bytes().to_vec()));
+                    }
+                    1 => {
+                        // two entries swap their slots
+                        let j = rng.below(slots) as usize;
+                        let (a, b) = (cur[off..off + 64].to_vec(), cur[8 + 64 * j..8 + 64 * j + 64].to_vec());
+                        u.push((c.mt_addr + off as u64, b));
+                        u.push((c.mt_addr + 8 + 64 * j as u64, a));
+                    }
+                    2 => u.push((c.mt_addr, (rng.below(slots + 1)).to_le_bytes().to_vec())), // count changes
+                    3 => {
+                        // device XML <-> buffer XML
+                        let info = u32::from_le_bytes(cur[off + 4..off + 8].try_into().unwrap()) ^ 1;
+                        u.push((c.mt_addr + off as u64 + 4, info.to_le_bytes().to_vec()));
+                    }
+                    4 => {
+                        // every version is replaced
+                        for k in 0..slots as usize {
+                            let v: u32 = (rng.below(3) as u32) << 24 | (rng.below(2) as u32) << 16 | rng.below(0x300) as u32;
+                            u.push((c.mt_addr + 8 + 64 * k as u64, v.to_le_bytes().to_vec()));
+                        }
+                    }
+                    _ => {
+                        // the slot takes over the location (address, size, hash) of another one
+                        let j = rng.below(slots) as usize;
+                        u.push((c.mt_addr + off as u64 + 8, cur[8 + 64 * j + 8..8 + 64 * j + 44].to_vec()));
+                    }
+                }
+                for (a, d) in &u {
+                    let o = (*a - c.mt_addr) as usize;
+                    cur[o..o + d.len()].copy_from_slice(d);
+                }
+            }
+            updates.push(u);
+        }
+        c.ops = vec![None; calls];
+        c.updates = updates;
+        return Some(c);
+    }
+    None
 }
 
 fn gen_fault(rng: &mut Rng, k: usize) -> (usize, FaultKind) {
@@ -850,7 +989,7 @@ fn main() {
     let args = parse_args();
     let mut rep = Report::new(
         "C14",
-        "one case = one handle lifetime over a scripted device: manifest (0..6 entries, device/buffer/reserved file types, duplicate and unordered versions incl. subminor >= 256, plain / real zip archives with 0/1/2 files, hash present / absent / wrong), file sizes 0 .. several acknowledge chunks, negotiated acknowledge lengths 64 .. u32::MAX, corruptions (bit flips in file, hash, zip directory, zip data; truncated tables and files; advertised sizes / counts beyond the map; absurd sizes 2^40, 2^63, u64::MAX; tables / files ending at or beyond 2^64; counts 2^58, u64::MAX, largest addressable), for a subset of the small cases the failure of each device command (<= 24 indices per case), repeated calls; non-trivial = genapi returned a non-empty document; distinct by request hash",
+        "one case = one handle lifetime over a scripted device: manifest (0..6 entries, device/buffer/reserved file types, duplicate and unordered versions incl. subminor >= 256, plain / real zip archives with 0/1/2 files, hash present / absent / wrong), file sizes 0 .. several acknowledge chunks, negotiated acknowledge lengths 64 .. u32::MAX, corruptions (bit flips in file, hash, zip directory, zip data; truncated tables and files; advertised sizes / counts beyond the map; absurd sizes 2^40, 2^63, u64::MAX; tables / files ending at or beyond 2^64; counts 2^58, u64::MAX, largest addressable), for a subset of the small cases the failure of each device command (<= 24 indices per case), repeated calls, histories in which the device edits its manifest table between the calls on one handle; non-trivial = genapi returned a non-empty document; distinct by request hash",
     );
     let mut rng = Rng::new(args.seed);
 
@@ -901,6 +1040,7 @@ fn main() {
             mt_addr,
             max_ack,
             ops: vec![None],
+            updates: vec![],
         };
         run_case(&mut rep, &c, "beyond-one-growth-step");
     }
@@ -937,8 +1077,16 @@ fn main() {
             mt_addr,
             max_ack,
             ops: vec![None],
+            updates: vec![],
         };
         run_case(&mut rep, &c, "growth-step-leaves-address-space");
+    }
+
+    // histories: the manifest table changes between calls on one handle
+    for _ in 0..(if args.thorough() { 4_000 } else { 500 }) {
+        if let Some(c) = gen_update_case(&mut rng, args.thorough()) {
+            run_case(&mut rep, &c, "table-changes-between-calls");
+        }
     }
 
     let rounds = if args.thorough() { 30_000 } else { 3_000 };
